@@ -3,7 +3,7 @@
 CONSTANTS
     Impl = "intended"
     Tier = "quick"
-    Fams = {"shapes", "single", "dep", "names", "totals", "pairs", "cross", "mix"}
+    Fams = {"shapes", "single", "dep", "names", "totals", "pairs", "cross", "mix", "update"}
     Denom = "uakt"
     DepositDenom = "uakt"
     OtherDenom = "uatom"
@@ -28,6 +28,7 @@ CONSTANTS
     VersionLen = 32
     MinDeposit = 5000000
     Funds = 1495000000
+    BaseDSeq = 7
     MidCPU = 3848
     MidMem = 486
     MidSto = 487925
